@@ -15,7 +15,7 @@ From Coq Require Import List Arith NArith Bool.
 Import ListNotations.
 Require Import Aiuti.Buffer Aiuti.BufferCore Aiuti.BufferFlag Aiuti.BufferInv Aiuti.BufferJoin
                Aiuti.BufferQuiet Aiuti.BufferProgress Aiuti.BufferWait Aiuti.BufferReturn Aiuti.Case_Buffer
-               Aiuti.Case_C07 Aiuti.BufferMon.
+               Aiuti.Case_C07 Aiuti.BufferMon Aiuti.BufferMonSound.
 
 (* The barrier.  For EVERY history evs and next event e: if WaitRet w is observed
    in the macro step of e, then the history contains the (accepted, i.e. live
@@ -151,6 +151,27 @@ Theorem shutdown_monitor_sound :
                     forall o, In o opre -> has_ended o = false).
 Proof. exact shut_ok_sound. Qed.
 Print Assumptions shutdown_monitor_sound.
+
+(* The walk part of the monitor, read MODEL-FREE.  [C7.barrier D od w n] says: the script D contains
+   the accepted event Wait w; every argument the script D handed over through a producer submitted
+   before that Wait is in [ok_sets od] (a call that ended well earlier in the trace); none of those
+   producers is still open; n = number of successful calls in od.  Whenever the walk accepts an
+   (input script, observed trace) pair: one trace entry per event, no Hang; at EVERY observed
+   WaitRet w _ n the barrier statement holds for the script up to that step and the observations
+   before it; and if the script lets the buffer settle with no foreign clear pending, every accepted
+   wait() of the script has a WaitRet in the trace. *)
+Theorem walk_monitor_sound :
+  forall (T : N) (evs : list event) (observed : list (list obs)),
+    Case_C07.ok_walk (Case T evs observed) = true ->
+    length evs = length observed /\ ~ In Hang (concat observed) /\
+    (forall epre e epost opre o1 w t n o2 opost,
+       evs = epre ++ e :: epost -> observed = opre ++ (o1 ++ WaitRet w t n :: o2) :: opost -> length epre = length opre ->
+       C7.barrier (epre ++ [e]) (concat opre ++ o1) w n) /\
+    (settled_waits T evs = true ->
+       forall pre c post w, evs = pre ++ Wait w c :: post -> wait_accepted (trk_run trk0 pre) w = true ->
+         exists t n, In (WaitRet w t n) (concat observed)).
+Proof. exact C7.c07_walk_sound. Qed.
+Print Assumptions walk_monitor_sound.
 
 Theorem monitor_implies_shutdown_part : forall c, Case_C07.ok c = true -> ok_shut c = true.
 Proof. exact ok_implies_shut. Qed.
